@@ -308,7 +308,8 @@ func runC18(c C18Case) (fails []vstat.Failure) {
 		req += l + "\r\n"
 	}
 	req += "\r\n"
-	before := base.origin.Accepts() + base.torigin.Accepts() + base.origin.BytesIn() + base.torigin.BytesIn()
+	// contact = bytes a peer received (net/http finishes dials in the background: a bare accept may belong to an earlier request)
+	before := base.origin.BytesIn() + base.torigin.BytesIn()
 	if _, err := conn.Write([]byte(req)); err != nil {
 		return []vstat.Failure{vstat.Failf(key("write"), "write: %v", err)}
 	}
@@ -316,7 +317,7 @@ func runC18(c C18Case) (fails []vstat.Failure) {
 	if err != nil {
 		return []vstat.Failure{vstat.Failf(key("no-response"), "no response: %v", err)}
 	}
-	after := base.origin.Accepts() + base.torigin.Accepts() + base.origin.BytesIn() + base.torigin.BytesIn()
+	after := base.origin.BytesIn() + base.torigin.BytesIn()
 	var rec *Msg
 	for _, pe := range []*Peer{base.origin, base.torigin} {
 		for _, r := range pe.Requests() {
